@@ -467,7 +467,9 @@ where
         self.validate()?;
 
         let packet_id_buf = self.packet_id_buf.unwrap();
-        let remaining_length = VariableByteInteger::from_u32(2).unwrap(); // packet_id(2)
+        // packet identifier: 2 bytes, or 4 with the 32-bit identifier extension
+        let packet_id_size = mem::size_of::<<PacketIdType as IsPacketId>::Buffer>();
+        let remaining_length = VariableByteInteger::from_u32(packet_id_size as u32).unwrap();
 
         Ok(GenericUnsuback {
             fixed_header: [FixedHeader::Unsuback.as_u8()],
